@@ -486,6 +486,10 @@ theorem cEnv_dropped (i : Nat) (e : Env) (j : Job) : cEnv i (e.emit (.dropped j.
   have := cEnv_discard i e (h := none) .shutdown j
   simpa [cEnv, Env.discard, Env.emit, cTerm, isTerm, List.countP_append, List.countP_cons] using this
 
+theorem cEnv_abandoned (i : Nat) (e : Env) (j : Job) : cEnv i (e.emit (.abandoned j.id)) = cEnv i e + cj i [j] := by
+  have := cEnv_discard i e (h := none) .shutdown j
+  simpa [cEnv, Env.discard, Env.emit, cTerm, isTerm, List.countP_append, List.countP_cons] using this
+
 theorem cEnv_dropMsg (i : Nat) (e : Env) (m : FMsg) : cEnv i (e.dropMsg m) = cEnv i e + cInbox i [m] := by
   cases m with
   | dispatch j =>
@@ -520,7 +524,7 @@ theorem total_postStop (i : Nat) (w : W) : total i w.postStop = total i w := by
     unfold Env.dropQueued
     split
     · exact cEnv_discard i e _ j
-    · exact cEnv_dropped i e j
+    · exact cEnv_abandoned i e j
   have h2 : ∀ (pool : List WP) (e : Env), cEnv i (pool.foldl Env.dropWorkerQueue e) = cEnv i e + cPool i pool := by
     intro pool
     induction pool with
@@ -529,7 +533,7 @@ theorem total_postStop (i : Nat) (w : W) : total i w.postStop = total i w := by
       intro e
       rw [List.foldl_cons, ih]
       unfold Env.dropWorkerQueue
-      rw [cEnv_foldl_add i _ (fun e j => cEnv_dropped i e j)]
+      rw [cEnv_foldl_add i _ (fun e j => cEnv_abandoned i e j)]
       simp only [cPool, List.map_cons, List.sum_cons]
       omega
   have h3 : ∀ (pool : List WP) (e : Env), cEnv i (pool.foldl (fun e p => e.stop p.actor) e) = cEnv i e := by
